@@ -1,12 +1,12 @@
 (* Extraction of the executable models.  ExtrOcamlBasic only: bool, option, unit, list, prod,
    sumbool, sumor map to OCaml's; N, Z, positive, nat stay the extracted datatypes. *)
 From Coq Require Import Extraction ExtrOcamlBasic.
-From SliceV Require Import Base.Bytes Base.Utf8 Codec.Wire Codec.Typed Codec.Reply Codec.Buffer Cli.PluginSpec Prep.PrepCore Prep.PrepText Sema.Cyc Sema.CyclesProg Sema.Lookup Sema.Resolve Sema.Visitor Sema.Validate Sema.Lints Driver.Emit Request.Schema Request.Request Request.Convert Sema.AttrTypes Sema.Attributes Doc.Comment Syntax.Tokens Gen.Keywords Syntax.Lexer Syntax.Parser Driver.Main Driver.Files.
+From SliceV Require Import Base.Bytes Base.Utf8 Codec.Wire Codec.Typed Codec.Reply Codec.Buffer Cli.PluginSpec Prep.PrepCore Prep.PrepText Sema.Cyc Sema.CyclesProg Sema.Lookup Sema.Resolve Sema.Visitor Sema.Validate Sema.Lints Driver.Emit Request.Schema Request.Request Request.Convert Sema.AttrTypes Sema.Attributes Doc.Comment Syntax.Tokens Gen.Keywords Syntax.Lexer Syntax.Parser Driver.Main Driver.Files Sema.Scoped.
 Extraction "model.ml"
   enc_bool dec_bool enc_uint enc_int dec_uint dec_int enc_varuint enc_varint dec_varuint dec_varint
   dec_varuint_max dec_varint_in enc_str dec_str utf8_valid utf8_encode utf8_decode skip_tagged_fields
   enc_val dec_val dec_generated_file dec_diagnostic dec_level dec_reply seq_reservation str_reservation
   bstep astep vstep vastep rstep init ainit vinit render ranges
   parse render_opt
-  detect_prog chain_fields gcyclic resolve_alias resolve visit_file preorder tree_of_file declared check level_of totals emit_json emit_human get_totals dec_request request_ids_wellfounded conv_file check_attributes parse_comment tag_lints resolve_link lex_line parse_text parse_blocks lex_blocks prim_name generation_runs exit_status error_count gen_results resolve_files parses
+  detect_prog chain_fields gcyclic resolve_alias resolve visit_file preorder tree_of_file declared check level_of totals emit_json emit_human get_totals dec_request request_ids_wellfounded conv_file check_attributes parse_comment tag_lints resolve_link lex_line parse_text parse_blocks lex_blocks prim_name generation_runs exit_status error_count gen_results resolve_files parses redef_report sc_lookup sc_table
   run_text run_text_spec split_lines line_start_loc classify.
